@@ -60,6 +60,8 @@ ARITY = {  # name -> list of parameter kinds; 'n' nat, 'q' scalar, 'v' sub-view
 E = ("Echo",)
 
 def fq(x):
+    if isinstance(x, str):
+        return x            # raw f64 bit pattern token "x...."
     x = Fraction(x)
     return "%d/%d" % (x.numerator, x.denominator)
 
@@ -135,7 +137,7 @@ class Case:
         self.probes = {}
     @staticmethod
     def simple(desc, xs, meta=None):
-        return Case(desc, [("u", 0, Fraction(x)) for x in xs], meta)
+        return Case(desc, [("u", 0, x if isinstance(x, str) else Fraction(x)) for x in xs], meta)
     def inputs(self):
         return [o[2] for o in self.ops if o[0] == "u" and o[1] == 0]
     def line(self, cid, mode):
